@@ -270,6 +270,9 @@ def run_variant(case, d, v):
             a = a + oc
         new.append(a)
     stdout_data = None
+    if v.get("fasta_flag"):
+        # --fasta asks for FASTA on standard output; output files with a FASTQ name are still written as their name says
+        new = ["--fasta"] + new
     if v.get("stdout_fasta"):
         # the trimmed reads go to standard output (no -o) and --fasta asks for FASTA there -- with any number of cores
         k = new.index("-o")
@@ -351,6 +354,8 @@ def rand_variant(rng, case, k):
         v["cores"] = rng.choice([1, 2, 3])
         for kk in ("fasta_out", "mixed_out", "fasta_in"):
             v.pop(kk, None)
+    if not b.fasta and not any(v.get(kk) for kk in ("stdout_fasta", "fasta_out", "mixed_out", "fasta_in")) and rng.random() < 0.12:
+        v["fasta_flag"] = True
     if k == 0:
         v["cores"] = 2
         v["spawn"] = rng.random() < 0.35   # workers get the pipeline through pickle
@@ -395,7 +400,7 @@ def part_matrix(ctx, d, dist):
             ctx.count(key, any(len(x["records"]) for x in ref["files"].values()))
             for kk in ("in_comp", "out_comp"):
                 dist["%s=%s" % (kk, v.get(kk) or "plain")] = dist.get("%s=%s" % (kk, v.get(kk) or "plain"), 0) + 1
-            for kk in ("fasta_in", "fasta_out", "inter_in", "inter_out", "redirect_two", "mixed_out", "gt_names", "buffer_size", "spawn", "stdout_fasta"):
+            for kk in ("fasta_in", "fasta_out", "inter_in", "inter_out", "redirect_two", "mixed_out", "gt_names", "buffer_size", "spawn", "stdout_fasta", "fasta_flag"):
                 if v.get(kk):
                     dist[kk] = dist.get(kk, 0) + 1
             dist["cores=%d" % v["cores"]] = dist.get("cores=%d" % v["cores"], 0) + 1
